@@ -63,9 +63,14 @@ def judge(ctx, binp, item, r, st, label, profile):
         if any(at.endswith(x) for x in FILTER_ASSERTS):
             return ctx.known_or_violation('filter-size-assert', text, replay)
         if profile == 'debug' and re.search(r"filter/mod\.rs:24[345]$", at):
-            return ctx.known_or_violation('f32-bound-debug-assert', text, replay)
-        if profile == 'debug' and at.endswith('filter/box_blur.rs:48'):
-            return ctx.known_or_violation('blur-sigma-overflow', text, replay)
+            # f32_bound debug_assert: repaired for feComposite (baf34bc, 8d835b3); still reachable from feTurbulence
+            # with an absurd numOctaves only - anything else is a plain violation
+            cls = classify(ctx, binp, item)
+            replay['class_predicates'] = cls
+            if cls.get('octaves', 0) > 1000:
+                return ctx.known_or_violation('turbulence-octaves', text, replay)
+            if cls.get('turb_freq', 0) > 1e6:
+                return ctx.known_or_violation('turbulence-nonfinite', text, replay)
         ctx.violation(text, replay)
         return False
     slow = False
@@ -246,7 +251,8 @@ def run(ctx):
 
     # ------------------------------------------------------------------ S: regression inputs of fixed defects + witnesses of known ones
     wdir = os.path.join(vlib.VERIF, 'corpus', 'witness')
-    fixed = ['F06.svg', 'morph-radius.svg', 'offset-huge.svg', 'region-overflow.svg', 'turbulence-frequency.svg']
+    fixed = ['F06.svg', 'morph-radius.svg', 'offset-huge.svg', 'region-overflow.svg', 'turbulence-frequency.svg',
+             'arith-k-overflow.svg', 'arith-k-huge-finite.svg', 'blur-sigma-huge.svg']
     items = [('@' + os.path.join(wdir, f), 100, 100, (1, 0, 0, 1, 0, 0)) for f in fixed if os.path.exists(os.path.join(wdir, f))]
     dbin, dlog = ctx.harness('debug')
     for prof, b in (('release', binp), ('debug', dbin)):
@@ -265,8 +271,7 @@ def run(ctx):
     WIT = {
         'F5 pattern tile': '<svg %s width="100" height="100"><pattern id="p" patternUnits="userSpaceOnUse" width="100000" height="100000"><rect width="5" height="5"/></pattern><rect width="100" height="100" fill="url(#p)"/></svg>',
         'F4 clamped region': '<svg %s width="100" height="100"><filter id="f" filterUnits="userSpaceOnUse" x="-1000" y="-1000" width="3000" height="3000"><feComposite operator="arithmetic" in2="SourceGraphic" k2="0.5" k3="0.5"/></filter><rect width="50" height="50" fill="green" filter="url(#f)"/></svg>',
-        'F17 arithmetic k': '<svg %s width="100" height="100"><filter id="f"><feComposite operator="arithmetic" in2="SourceGraphic" k1="1e40" k2="1"/></filter><rect width="50" height="50" fill="green" filter="url(#f)"/></svg>',
-        'blur sigma': '<svg %s width="100" height="100"><filter id="f"><feGaussianBlur stdDeviation="1e30"/></filter><rect width="50" height="50" fill="green" filter="url(#f)"/></svg>',
+        'turbulence frequency': '<svg %s width="100" height="100"><filter id="f"><feTurbulence baseFrequency="1e30"/></filter><rect width="50" height="50" fill="green" filter="url(#f)"/></svg>',
         'turbulence octaves': '<svg %s width="100" height="100"><filter id="f"><feTurbulence baseFrequency="0.05" numOctaves="100000000"/></filter><rect width="50" height="50" fill="green" filter="url(#f)"/></svg>',
     }
     wit_items = [(d % rc.NS, 100, 100, (1, 0, 0, 1, 0, 0)) for d in WIT.values()]
